@@ -145,6 +145,32 @@ PROPS = {
         rule="source event from boundary pools and random draws, against all 16 destinations in scope (float destinations only for integer sources); distinct by source text x destination",
         trusted_base=COMMON_TB,
     ),
+    "C04": dict(
+        claim="oracle on the implementation over reflect-generated types (random struct types via reflect.StructOf, nested slices/arrays/maps/pointers, all supported special types) and values (boundary magnitudes, arrays of length 0..33 so that the chunked path is taken): MarshalToCBE/CTEDocument then UnmarshalFrom...Document into a template of the same type must succeed and give a value equal by the property's equality (nil = empty, times by instant, big numbers by value, floats by bits, any NaN = NaN). "
+              "The event-level legs of the round trip are carried by the theorems this check re-checks: CBE per-event round trips (C01), exact little-endian array bytes (C26), exact integer conversions (C19). Features with recorded findings are isolated in their own sub-populations",
+        note="partial: the reflection layer (iterator/builder) is not modelled in Lean - M-MARSHAL of the design is not built - so the deciding part for the value-level statement is the oracle; the theorems cover only the legs named above. reflect itself is a black box",
+        level="proof", n_quick=4000, n_thorough=300000, shards=16,
+        lean_modules=["CE.Props.C01", "CE.Props.C26", "CE.Props.C19"],
+        rule="type by recursive descent (depth 1-3), one third of the cases with special types; features found by scanning the type and the value pick the sub-population; distinct by type+value rendering",
+        trusted_base=COMMON_TB,
+    ),
+    "C05": dict(
+        claim="for reflect-generated values the events of the real iterator are (1) fed to the real rules validator and judged by the independent grammar (WF.REL, theorems of C10 apply to the table), (2) compared, as value trees up to map order (TREE.EQ), with an independent description of the value (every element, entry and non-omitted field once; typed arrays as exact little-endian/bit-packed contents), and (3) the CBE and CTE documents both marshalers write must decode with rules",
+        note="partial: the iterator is not modelled in Lean; the deciding part is the oracle (Lean grammar + Lean tree equality on the implementation's events). Special types (times, big numbers, URL, UID, media, node) are checked for validity only, not described independently",
+        level="proof", n_quick=4000, n_thorough=300000, shards=16,
+        lean_modules=["CE.Props.C10", "CE.Props.C26", "CE.Gen.Check"],
+        rule="as C04; distinct by type+value rendering",
+        trusted_base=COMMON_TB,
+    ),
+    "C18": dict(
+        claim="the Lean model of the CBE encoder returns, next to the bytes, the value the caller's *big.Int holds afterwards (encBigInt); theorem encode_preserves_bigint: it is the value that was passed in, for every sign and magnitude (the repaired OnBigInt negates into a copy). "
+              "Harness: a cycle-safe structural dump (big.Int sign and digits, big.Float mantissa/exponent/precision, apd fields, slice contents, pointer graph) of every generated value before and after MarshalToCBE/CTEDocument must be identical; half of the cases are pointer-held big numbers around 2^63 and 2^64",
+        note="partial: only the CBE big-integer path is a theorem; the iterator and the CTE writer are covered by the before/after oracle",
+        level="proof", n_quick=4000, n_thorough=300000, shards=16,
+        lean_modules=["CE.Props.C18"],
+        rule="even cases: struct of *big.Int / *big.Float / *apd.Decimal with magnitudes around 2^63, 2^64 and random; odd cases: generated types/values as C04",
+        trusted_base=COMMON_TB,
+    ),
 }
 
 NOT_APPLICABLE = {}
